@@ -1,0 +1,26 @@
+//! Verification hooks, compiled only with `--cfg eyeball_verif`.
+//!
+//! `pause(point)` calls a process-global callback (if one is installed) at fixed points inside
+//! `poll`, `set`, `close`, `SharedObservable::drop` and `WeakObservable::upgrade`, so that a test
+//! harness can hold a thread at that point and force a particular interleaving. Without the cfg
+//! flag this module and every call to it do not exist.
+#![allow(missing_docs, missing_debug_implementations)]
+
+use std::sync::{Arc, RwLock};
+
+type Hook = Arc<dyn Fn(&'static str) + Send + Sync>;
+
+static HOOK: RwLock<Option<Hook>> = RwLock::new(None);
+
+/// Install (or remove) the callback invoked at every pause point.
+pub fn set_hook(hook: Option<Hook>) {
+    *HOOK.write().unwrap() = hook;
+}
+
+/// Called by the library at a pause point.
+pub fn pause(point: &'static str) {
+    let hook = HOOK.read().unwrap().clone();
+    if let Some(hook) = hook {
+        hook(point);
+    }
+}
